@@ -357,8 +357,30 @@ func IsException(exception *Type, r interface{}) bool {
 	return t.IsSubtype(exception)
 }
 
+// StopIterationValue returns the value carried by a StopIteration error (None if none)
+func StopIterationValue(err error) Object {
+	var v Object
+	switch e := err.(type) {
+	case ExceptionInfo:
+		v = e.Value
+	case *ExceptionInfo:
+		v = e.Value
+	case *Exception:
+		v = e
+	}
+	if exc, ok := v.(*Exception); ok {
+		if args, ok := exc.Args.(Tuple); ok && len(args) > 0 {
+			return args[0]
+		}
+	}
+	return None
+}
+
 // FIXME prototype __getattr__ before we do introspection!
 func (e *Exception) M__getattr__(name string) (Object, error) {
+	if name == "value" && e.Base != nil && e.Base.IsSubtype(StopIteration) {
+		return StopIterationValue(e), nil
+	}
 	return e.Args, nil // FIXME All attributes are args!
 }
 
